@@ -184,6 +184,19 @@ func main() {
 		}
 	}
 
+	// ---- the lines of the Props examples
+	for _, l := range propsExamples {
+		c := lineCase{Class: "props-example", Line: l, Vars: [][2]string{{"", ""}, {"", "\n"}, {"", " \r\n"}}}
+		os := runLine(c)
+		for _, f := range judgeLine(c, os) {
+			sum.FailKey("oracle", f.key, f.what, replayDoc{Auparse: toReplay(c)})
+		}
+		add(coqLine(c, os), replayDoc{Auparse: toReplay(c)})
+		sum.Dist("line_" + c.Class)
+		sum.Dist("result_" + os[0].Cls)
+		sum.Count(l, strings.Index(l, "msg=") >= 6)
+	}
+
 	// ---- type names
 	for i := 0; i < *nt; i++ {
 		name, cl := genTypeName(r, i, names)
